@@ -209,6 +209,13 @@ theorem bipolar_metric_eq_jacobian_gram (a c s ch sh : K) (h : c ^ 2 + s ^ 2 = 1
   have hd' : ch - c ≠ 0 := fun h => hd (by linear_combination -h)
   la_simp; refine ⟨⟨?_, ?_⟩, ?_, ?_⟩ <;> field_simp <;> grind
 
+theorem bisph_metric_eq_jacobian_gram (a c s ch sh cp sp : K) (h : c ^ 2 + s ^ 2 = 1)
+    (hh : ch ^ 2 - sh ^ 2 = 1) (hp : cp ^ 2 + sp ^ 2 = 1) (hd : c - ch ≠ 0) :
+    matMul (transpose (bisphJac a c s ch sh cp sp)) (bisphJac a c s ch sh cp sp) =
+      metric (bisphScale a c s ch) := by
+  have hd' : ch - c ≠ 0 := fun h => hd (by linear_combination -h)
+  la_simp; (repeat' constructor) <;> field_simp <;> grind
+
 /-- `det J` = product of the scale factors = `_volume_factor` (`r`, `r^2 sin θ`, `r`) -/
 theorem jacobian_det_eq_volume_factor (r : K) (a : Angles K) (ha : a.WF) :
     det (jacobian .polar 2 r a) = r ∧ det (jacobian .cylindrical 2 r a) = r ∧
@@ -746,6 +753,25 @@ theorem conversion_commutes_with_divergence_poly_spherical (Dx Dy Dz : Derivatio
     ring
   · simp [derivative_comp, derivative_mul]
     ring
+
+/-- **C19** `conversion_commutes_with_divergence_poly` (polar and spherical grids together): the
+Cartesian divergence of the converted polynomial field is the curvilinear divergence formula
+evaluated at the radius of the point -/
+theorem conversion_commutes_with_divergence_poly (P Q : K[X]) :
+    (∀ (Dx Dy : Derivation K A A) (x y : A), Coords2 Dx Dy x y →
+      cartDiv [Dx, Dy]
+          (vectorToCartesian .polar 1 ⟨0, 0, x, y⟩ [aeval (x ^ 2 + y ^ 2) P, aeval (x ^ 2 + y ^ 2) Q])
+        = aeval (x ^ 2 + y ^ 2) (2 * P + 2 * X * derivative P)) ∧
+    (∀ (Dx Dy Dz : Derivation K A A) (x y z : A), Coords3 Dx Dy Dz x y z →
+      cartDiv [Dx, Dy, Dz]
+          (vectorToCartesian .spherical 1 ⟨z, 1, x, y⟩ [aeval (x ^ 2 + y ^ 2 + z ^ 2) P, 0, 0])
+        = aeval (x ^ 2 + y ^ 2 + z ^ 2) (3 * P + 2 * X * derivative P)) ∧
+    X * (2 * P + 2 * X * derivative P).comp (X ^ 2) = derivative (X * (X * P.comp (X ^ 2))) ∧
+    X ^ 2 * (3 * P + 2 * X * derivative P).comp (X ^ 2) = derivative (X ^ 2 * (X * P.comp (X ^ 2))) :=
+  ⟨fun Dx Dy x y h => (conversion_commutes_with_divergence_poly_polar Dx Dy x y h P Q).1,
+   fun Dx Dy Dz x y z h => (conversion_commutes_with_divergence_poly_spherical Dx Dy Dz x y z h P).1,
+   by simp [derivative_comp, derivative_mul]; ring,
+   by simp [derivative_comp, derivative_mul]; ring⟩
 
 /-- cylindrical grids, contraction by axis name (NOT the conversion of this tree): the field with
 components `(r P, S, r Q)` in the operators' order `(r, z, φ)`, `Q` axisymmetric, has the Cartesian
